@@ -253,6 +253,25 @@ DEGENERATE = {
     "return-from-for-in-in-function": "(function () { for (var k in {a: 1}) { return k } })();",
     "return-from-for-of-in-function": "(function () { for (var v of [1, 2]) { return v } })();",
     "break-out-of-switch-in-for-in": "for (var k in {a: 1, b: 2}) { switch (k) { case 'a': continue; default: break } }",
+    "delete-non-reference": "delete g(1, 2); delete 5; delete (s, a)[9]; delete 'str'; delete (c ? a : a);",
+    "catch-parameter-captured": "try { throw g(1, 2) } catch (e) { var keep = function () { return e } } keep();",
+    "catch-parameter-captured-arrow": "try { null.x } catch (e) { var keep2 = () => e } keep2();",
+    "for-in-target-captured": "for (var k in {a: 1}) { var kk = function () { return k } } kk();",
+    "for-of-target-captured": "for (var v of [1, 2]) { var vv = function () { return v } } vv();",
+    "function-expression-named-recursive": "(function fact(n) { return n <= 1 ? 1 : n * fact(n - 1) })(4);",
+    "typeof-and-in-and-instanceof": "typeof a[0]; 'x' in {x: 1}; a instanceof Array;",
+    "compound-assignment-to-member": "a[0] += 1; a[0] -= 1; ({p: 1}).p *= 2;",
+    "update-on-member-dropped": "a[1]++; --a[1]; ({p: 1}).p++;",
+    "sequence-with-calls": "(g(1, 2), g(3, 4), 0);",
+    "template-of-calls-in-condition": "if (g(1, 2) > g(0, 0)) { } else { }",
+    "new-expression-dropped": "new (function K(x) { this.x = x })(1);",
+    "regex-literal-and-test": "/a+/.test('caab');",
+    "throw-in-getter-caught": "try { ({get p() { throw 1 }}).p } catch (e) { }",
+    "throw-in-valueOf-mid-expression": "try { r = 1 + {valueOf: function () { throw 2 }} } catch (e) { }",
+    "throw-in-callback-mid-array": "try { r = [0, [1].map(function () { throw 3 }), 2] } catch (e) { }",
+    "throw-in-for-of-over-callback": "try { for (var v of [1, 2]) { [v].forEach(function () { throw 4 }) } } catch (e) { }",
+    "throw-in-sort-comparator-in-for-in": "for (var k in {a: 1}) { try { [2, 1].sort(function () { throw 5 }) } catch (e) { } }",
+    "nested-eval-throws-mid-expression": "try { r = 1 + (1, eval)('null.x') } catch (e) { }",
 }
 
 
@@ -266,6 +285,9 @@ def degenerate_programs():
         yield ("degenerate-native|%s|none" % name,
                pre + "function fn() { " + stmt + " return 6 } var I = 0; while (I < NN) { I++; [1].forEach(function () { "
                "r = [0, fn()] }); __mark(); } I")
+        # the repeating loop lives inside ONE activation: what the statement leaves behind accumulates there only
+        yield ("degenerate-funcloop|%s|none" % name,
+               pre + "var I = 0; function fn() { for (var qq = 0; I < NN; qq++) { I++; __mark(); " + stmt + " } return 6 } fn(); I")
         yield ("degenerate-operand|%s|none" % name,
                pre + "function fn() { " + stmt + " return 6 } var I = 0; while (I < NN) { I++; r = g(1, [fn(), fn()].length); "
                "__mark(); } I")
@@ -368,11 +390,11 @@ def spaces(tier, seed, all_strata=False):
             "leaving a catch or finally block while an exception is pending) inline in the driver loop, inside a function used "
             "as an operand, and below a native frame", "all shapes", nontrivial=lambda cid, p, exp: "normal.absent.absent" not in cid),
         _sp("c02_degenerate", "run_residue", _degenerate_cases,
-            "%d statements whose body is skipped or runs zero times (switch without a matching case or default, empty loops, "
+            "%d statements whose body is skipped or runs zero times, or whose value is dropped (switch without a matching case or default, empty loops, "
             "untaken branches, short circuits, immediate break / continue / return out of for-in, for-of and switch, dropped "
-            "expression values) x 4 placements (inline, in a function used as an operand, below a native frame, twice in one "
-            "array literal), 30 iterations with the depth marks and 3 000 iterations under memory_limit = 64 kB" % len(DEGENERATE),
-            "%d x 4 x 2" % len(DEGENERATE), nontrivial=lambda cid, p, exp: True),
+            "expression values, captured catch / loop variables, throws caught in mid-expression) x 5 placements (inline, in a "
+            "function used as an operand, below a native frame, twice in one array literal, in a loop inside one activation), 30 iterations with the depth marks and 3 000 iterations under memory_limit = 64 kB" % len(DEGENERATE),
+            "%d x 5 x 2" % len(DEGENERATE), nontrivial=lambda cid, p, exp: True),
         _sp("c02_residue_d2", "run_residue", lambda: _residue_cases(2, C2),
             "every two-level nesting of 14 constructs x 9 exit kinds x 3 positions, same three placements", "depth 2",
             nontrivial=_nontrivial),
